@@ -444,3 +444,27 @@ func VerifC02_GetStatus() {
 	}
 	c02End(d, "GetStatus")
 }
+
+// ---- the same decodings after an earlier call of the same operation (results depend on the current reply only)
+
+func c02Twice(earlier func(u *uhppote, id uint32), harness func()) {
+	c02Earlier = earlier
+	defer func() { c02Earlier = nil }()
+	harness()
+}
+
+func VerifC02_GetTimeProfileTwice() {
+	c02Twice(func(u *uhppote, id uint32) { u.GetTimeProfile(id, nondetU8("earlier.profile")) }, VerifC02_GetTimeProfile)
+}
+func VerifC02_GetCardByIndexTwice() {
+	c02Twice(func(u *uhppote, id uint32) { u.GetCardByIndex(id, nondetU32("earlier.index")) }, VerifC02_GetCardByIndex)
+}
+func VerifC02_GetEventTwice() {
+	c02Twice(func(u *uhppote, id uint32) { u.GetEvent(id, nondetU32("earlier.index")) }, VerifC02_GetEvent)
+}
+func VerifC02_T_GetStatusTwice() {
+	c02Twice(func(u *uhppote, id uint32) { u.GetStatus(id) }, VerifC02_GetStatus)
+}
+func VerifC02_T_GetDeviceTwice() {
+	c02Twice(func(u *uhppote, id uint32) { u.GetDevice(id) }, VerifC02_GetDevice)
+}
